@@ -41,13 +41,55 @@ pub fn node_path(tree: &[Node], i: usize) -> PathBuf {
     p
 }
 
+static MOUNTS: std::sync::Mutex<Vec<PathBuf>> = std::sync::Mutex::new(Vec::new());
+static MOUNT_FAILED: std::sync::atomic::AtomicBool = std::sync::atomic::AtomicBool::new(false);
+
+/// Mount an empty tmpfs on `p` (a node with the attribute "mnt": another file system begins here).
+fn mount_tmpfs(p: &Path) -> bool {
+    let target = std::ffi::CString::new(p.as_os_str().as_bytes()).unwrap();
+    let r = unsafe { libc::mount(c"none".as_ptr(), target.as_ptr(), c"tmpfs".as_ptr(), 0, std::ptr::null()) };
+    if r == 0 {
+        MOUNTS.lock().unwrap().push(p.to_path_buf());
+    }
+    r == 0
+}
+
+/// Unmount what `materialize` mounted below `root` (deepest first).
+pub fn unmount_below(root: &Path) {
+    let mut m = MOUNTS.lock().unwrap();
+    let mut keep = vec![];
+    let mut mine: Vec<PathBuf> = vec![];
+    for p in m.drain(..) {
+        if p.starts_with(root) {
+            mine.push(p);
+        } else {
+            keep.push(p);
+        }
+    }
+    mine.sort_by_key(|p| std::cmp::Reverse(p.as_os_str().len()));
+    for p in mine {
+        let c = std::ffi::CString::new(p.as_os_str().as_bytes()).unwrap();
+        unsafe { libc::umount2(c.as_ptr(), libc::MNT_DETACH) };
+    }
+    *m = keep;
+}
+
+/// Did a mount asked for by the last `materialize` fail (no privilege in this sandbox)?
+pub fn mount_failed() -> bool {
+    MOUNT_FAILED.load(std::sync::atomic::Ordering::SeqCst)
+}
+
 /// Create the tree below `base` (which must exist and be empty).
 pub fn materialize(base: &Path, tree: &[Node]) {
+    MOUNT_FAILED.store(false, std::sync::atomic::Ordering::SeqCst);
     for (idx, n) in tree.iter().enumerate() {
         let p = base.join(node_path(tree, idx + 1));
         match n.kind.as_str() {
             "d" => {
                 std::fs::create_dir(&p).unwrap_or_else(|e| panic!("mkdir {:?}: {}", p, e));
+                if n.extra.get("mnt").and_then(|m| m.as_bool()).unwrap_or(false) && !mount_tmpfs(&p) {
+                    MOUNT_FAILED.store(true, std::sync::atomic::Ordering::SeqCst);
+                }
             }
             "l" => {
                 let text: PathBuf = if let Some(t) = n.extra.get("text").filter(|t| !t.is_null()) {
@@ -107,6 +149,7 @@ pub fn materialize(base: &Path, tree: &[Node]) {
 /// A fresh, empty case directory `<sandbox>/<n>/w`; the previous one is removed.
 pub fn fresh_case_dir(sb: &Sandbox, counter: &mut u64) -> PathBuf {
     let old = sb.path().join(format!("{}", *counter));
+    unmount_below(&old);
     if old.exists() && std::fs::remove_dir_all(&old).is_err() {
         let _ = std::process::Command::new("chmod").arg("-R").arg("u+rwx").arg(&old).stderr(std::process::Stdio::null()).status();
         let _ = std::fs::remove_dir_all(&old);
